@@ -194,4 +194,76 @@ def shr32I (x : UInt32) (n : Int) : Res UInt32 := if n < 0 then .error .panic el
 def shl64I (x : UInt64) (n : Int) : Res UInt64 := if n < 0 then .error .panic else .ok (shl64 x n.toNat)
 def shr64I (x : UInt64) (n : Int) : Res UInt64 := if n < 0 then .error .panic else .ok (shr64 x n.toNat)
 
+/-! ## additions for Goflow/Generated/NetflowT.lean -/
+
+/-- the three exits of a loop body: go on, `break`, `return x` -/
+inductive Ctl (α ρ : Type) where
+  | next (a : α) | brk (a : α) | ret (r : ρ)
+
+/-- after a loop: a `return` inside it ends the function, otherwise the loop-carried variables come back -/
+def Ctl.elim {α ρ β : Type} (c : Ctl α ρ) (onRet : ρ → β) (onDone : α → β) : β :=
+  match c with
+  | .next a => onDone a
+  | .brk a => onDone a
+  | .ret r => onRet r
+
+/-- an `interface{}` value as far as the translated code looks at it: a `[]byte`, or anything else (nil included) -/
+abbrev Any := Option Bytes
+/-- `v, ok := x.([]byte)` -/
+def anyBytes (x : Any) : Bytes := x.getD []
+def anyIsBytes (x : Any) : Bool := x.isSome
+/-- `x.([]byte)`: panics when the dynamic type is something else -/
+def assertBytes (x : Any) : Res Bytes :=
+  match x with
+  | some b => .ok b
+  | none => .error .panic
+
+/-- `record[i]` on a slice of structs -/
+def idxL {α : Type} (l : List α) (i : Nat) : Res α :=
+  match l[i]? with
+  | some x => .ok x
+  | none => .error .panic
+
+/-- `return err` of a `func(msg, …) error` -/
+def retMsg (m : FlowMsg) (err : Error) : Res FlowMsg :=
+  match err with
+  | none => .ok m
+  | some e => .error e
+
+def Cell.getU8 : Cell → UInt8 | .u8 v => v | _ => 0
+def Cell.getU16 : Cell → UInt16 | .u16 v => v | _ => 0
+def Cell.getU32 : Cell → UInt32 | .u32 v => v | _ => 0
+def Cell.getU64 : Cell → UInt64 | .u64 v => v | _ => 0
+
+/-- `make([]uint32, n)`, `copy` on any element type, `m.Column[i] = v` on a []uint32 column of the message
+    (the column keeps the Nat values of its elements) -/
+def makeU32s (n : Nat) : Res (List UInt32) := .ok (List.replicate n 0)
+def copyList {α : Type} (dst src : List α) : List α := src.take dst.length ++ dst.drop src.length
+def setIdxNat (l : List Nat) (i v : Nat) : Res (List Nat) :=
+  if i < l.length then .ok (l.set i v) else .error .panic
+
+/-! ### externals: the configured mappers and MapCustom are not translated, they delegate to the model -/
+
+/-- `TemplateMapper`: the nil interface, or the `ipfix` / `netflowv9` mapping of the configuration -/
+abbrev TemplateMapper := Option (List NetflowMapEntry)
+/-- `mapper.Map(df)`: (field, found); a method call on the nil interface panics -/
+def mapperMap (mp : TemplateMapper) (penProvided : Bool) (pen : UInt32) (type : UInt16) : Res (MapField × Bool) :=
+  match mp with
+  | none => .error .panic
+  | some es =>
+    match lookupNetflow es penProvided pen.toNat type.toNat with
+    | some f => .ok (f, true)
+    | none => .ok (default, false)
+
+/-- `MapCustom(flowMessage, v, cfg)` -/
+def MapCustom (m : FlowMsg) (v : Bytes) (f : MapField) : Res FlowMsg := mapCustom m v f
+
+/-- `PacketMapper`: the nil interface, or the compiled configuration with its parser environment -/
+abbrev PacketMapper := Option Config
+/-- `mapperSFlow.ParsePacket(flowMessage, data)` -/
+def ParsePacket (pm : PacketMapper) (m : FlowMsg) (data : Bytes) : Res FlowMsg :=
+  match pm with
+  | none => .error .panic
+  | some c => parsePacket c m data
+
 end Goflow.Go
